@@ -163,8 +163,9 @@ PROPS = {
         "level": "exploration",
         "rule": ("(1) generated and bundled texts transcoded to UTF-8+BOM/UTF-16LE/UTF-16BE must give the UTF-8 trace and Beatmap; "
                  "(2) every Unicode scalar value (thorough: all 1 112 064, exhaustive; quick: U+0000-U+0FFF, every 16th, every scalar "
-                 "with a 0x0A byte in its UTF-16 unit) as inner and whole Metadata content in all four encodings vs the framing model "
-                 "and vs UTF-8; (3) random invalid-UTF-8 bytes, truncated/overlong sequences, lone/reversed surrogates and every "
+                 "with a 0x0A byte in its UTF-16 unit) as inner, whole and last-character-of-file Metadata content in all four encodings vs the framing model "
+                 "and vs UTF-8, plus all pairs U+xx00 U+0Ayy and U+xx0A U+00yy (thorough; every third in quick) which put 00 0A / 0A 00 byte patterns across unit boundaries; "
+                 "(3) random invalid-UTF-8 bytes, truncated/overlong sequences, lone/reversed surrogates and every "
                  "truncation of the last two lines of UTF-16 files vs the model that applies std's lossy conversion per line. "
                  "non-trivial = a line reaches a section parser (1,2) / a dispatched line contains U+FFFD (3); distinct by FNV-64 of the bytes"),
         "assumptions": COMMON_ASSUMPTIONS + ["String::from_utf8_lossy and String::from_utf16_lossy are the trusted reference for replacement",
@@ -175,7 +176,7 @@ PROPS = {
         "thorough": [leg("main", "rel", 16, 90000, timeout=3600, max_secs=900),
                      leg("asan", "asan", 8, 20000, timeout=3600, max_secs=700, optional=True),
                      leg("miri", "miri", 16, 100, timeout=3600, max_secs=900, pregen=True)],
-        "min": {"scalars_checked": 20000, "scalars_with_0a_byte": 500, "scalars_supplementary": 1000, "cross_utf16le-bom": 1000,
+        "min": {"scalars_checked": 20000, "scalars_with_0a_byte": 500, "scalars_supplementary": 1000, "scalar_pairs_checked": 20000, "cross_utf16le-bom": 1000,
                 "texts_with_non_ascii": 500, "damage_invalid_utf8": 1000, "damage_lone_surrogates": 500, "odd_utf16_tails": 1000,
                 "inputs_with_replacement_in_dispatched_line": 500},
     },
